@@ -161,7 +161,13 @@ class Log2Val:
             if k < EXACT_LOG2_BITS:
                 cases.append(z3.And(rng, lv == k, isint == (n.t == 2 ** k)))
             else:
-                cases.append(z3.And(rng, z3.Or(z3.And(lv == k, z3.Implies(n.t == 2 ** k, isint)), z3.And(lv == k + 1, isint))))
+                # rounding up to k+1 needs log2(n) within an ulp or so of k+1: only in the band n >= 2^(k+1) - 2^(k-39)
+                # (|log2(1-x)| > x; an ulp at k+1 <= 2^10 is at most 2^-42; two bits of slack for a libm that is off by an ulp)
+                band = n.t >= 2 ** (k + 1) - 2 ** (k - 39)
+                # ... and r can be the integer k itself only for n within the same distance above 2^k
+                low = n.t <= 2 ** k + 2 ** (k - 39)
+                cases.append(z3.And(rng, z3.Or(z3.And(lv == k, z3.Implies(n.t == 2 ** k, isint), z3.Implies(isint, low)),
+                                               z3.And(lv == k + 1, isint, band))))
         e.add(z3.Or(*cases))
         res = SymInt(lv)
         CONFIG.log2_apps.append((n.t, lv, isint))
@@ -509,13 +515,54 @@ def witness_refinement(model):
     return out
 
 
+_LOG2_THRESHOLDS = {}
+
+
+def _log2_thresholds(k):
+    """for 2^k <= n < 2^(k+1): n_up = smallest n whose real math.log2 is (rounded up to) k+1, or 2^(k+1) if none;
+    n_dn = largest n whose real math.log2 is exactly k.  Found by bisection: log2 and rounding are monotone."""
+    hit = _LOG2_THRESHOLDS.get(k)
+    if hit is not None:
+        return hit
+    lo, hi = 2 ** k, 2 ** (k + 1) - 1
+    if math.log2(hi) < k + 1:
+        n_up = hi + 1
+    else:
+        a, b = lo, hi                      # log2(a) < k+1 <= log2(b)
+        while b - a > 1:
+            m = (a + b) // 2
+            if math.log2(m) >= k + 1:
+                b = m
+            else:
+                a = m
+        n_up = b
+    a, b = lo, hi + 1                      # log2(a) == k, log2(b-ish) > k
+    if math.log2(hi) == k:
+        n_dn = hi
+    else:
+        b = hi
+        while b - a > 1:
+            m = (a + b) // 2
+            if math.log2(m) == k:
+                a = m
+            else:
+                b = m
+        n_dn = a
+    _LOG2_THRESHOLDS[k] = (n_up, n_dn)
+    return n_up, n_dn
+
+
 def log2_facts(model):
-    """true facts about the real math.log2 at the argument values of `model`, as implications (sound to add to any
-    query): used to refine a counterexample until it agrees with the real libm"""
+    """true facts about the real math.log2 (sound to add to any query): for the power-of-two range of each argument value in
+    `model`, the complete behaviour of the real libm there - floor(r) = k+1 iff n >= n_up, r integral iff n >= n_up or n <= n_dn
+    (thresholds found by bisection on the real function, which is monotone).  Used to refine a counterexample until it agrees
+    with the real libm; one round per range suffices."""
     out = []
     for n, lv, isint in CONFIG.log2_apps:
         nv = model.eval(n, model_completion=True).as_long()
         if nv >= 1:
-            rl, ri = _real_log2_parts(nv)
-            out.append(z3.Implies(n == nv, z3.And(lv == rl, isint == ri)))
+            k = nv.bit_length() - 1
+            n_up, n_dn = _log2_thresholds(k)
+            rng = z3.And(n >= 2 ** k, n < 2 ** (k + 1))
+            out.append(z3.Implies(rng, z3.And(lv == z3.If(n >= n_up, k + 1, k), isint == z3.Or(n >= n_up, n <= n_dn))))
     return out
